@@ -309,6 +309,11 @@ def t_lower_bound(spec, obs, rng, res):
     if nonlin > 1e-8:
         res["counters"]["T_lp_skipped_nonlinear"] = 1
         return
+    if not (np.all(np.isfinite(A)) and np.all(np.isfinite(bvec))):
+        # a row evaluated to inf / nan at the random linearisation point (e.g. a generated 1/x term): no linear
+        # programme can be set up from it -- nothing decided for this case by the LP, the other monitors still run
+        res["counters"]["T_lp_skipped_nonfinite"] = 1
+        return
     # T as an affine function of the time variables
     w0 = rng.standard_normal(view.nx)
     T0 = rb(w0)["T"]
